@@ -1,6 +1,6 @@
 (* Extraction of the executable model to OCaml.  ExtrOcamlBasic only; Z/positive/Q/nat stay
    the extracted inductive types. *)
 From Coq Require Import Extraction ExtrOcamlBasic.
-From VK Require Import Base Core STV Pairwise Rules PV Election BallotCtor Cleaning Metrics Loaders GenValidation PrefInterval Codec Dispatch.
+From VK Require Import Base Core STV Pairwise Rules PV Election BallotCtor Cleaning Metrics Loaders GenValidation PrefInterval Generators Codec Dispatch.
 Extraction Language OCaml.
 Extraction "model.ml" dispatch.
